@@ -123,6 +123,7 @@ def to_events_flat(lines):
             if mode == "E":
                 ev["pid"] = int(d["pid"])
                 ev["cc"] = int(d["cc"])
+                ev["al"] = int(d.get("al", 1))
             if mode == "S":
                 ev["pids"] = [int(x) for x in d["pids"].split(",")]
             evs.append(ev)
@@ -436,12 +437,12 @@ def gen_q(rng, n):
     return Exe(cmds, "random Q")
 
 
-def gen_e(rng, n, big=False):
+def gen_e(rng, n, big=False, align=1):
     pcr = rng.chance(1, 2)
     pcrint = rng.choice([270000, 1080000, 2700000]) if pcr else 0
-    cmds = ["mode E pid=%d sid=%d cc=%d pcrint=%d hdr=%d" % (
+    cmds = ["mode E pid=%d sid=%d cc=%d pcrint=%d hdr=%d align=%d" % (
         rng.choice([68, 256, 8190, 32]), rng.choice([224, 192]), rng.below(16), pcrint,
-        rng.choice([0, 0, 0, 19, 30]))]
+        rng.choice([0, 0, 0, 19, 30]), align)]
     for _ in range(n):
         if rng.chance(1, 4):
             cmds.append("idle dt=%d" % rng.choice([1000, 300000, 3000000]))
@@ -459,7 +460,7 @@ def gen_e(rng, n, big=False):
         if rng.chance(3, 4):
             cmds.append("drain")
     cmds += ["drain", "eos", "drain"]
-    return Exe(cmds, "random E")
+    return Exe(cmds, "random E" if align else "random E (access units not aligned with PES)")
 
 
 # ------------------------------------------------- spec -> code: scripts, compare
@@ -917,6 +918,8 @@ def run(ctx):
             exes += [gen_q(rng, 6 + rng.below(10)) for _ in range(30 * k)]
             exes += [gen_e(rng, 4 + rng.below(8)) for _ in range(50 * k)]
             exes += [gen_e(rng, 2 + rng.below(3), big=True) for _ in range(10 if quick else 40)]
+            # access units not aligned with the PES packets (the tail of one travels with the next)
+            exes += [gen_e(rng, 3 + rng.below(9), align=0) for _ in range(30 * k)]
             execute(ctx, side["bin"], exes, jobs=6)
             side["exes"] = exes
             side["suspects"] = validate_pool(ctx, exes, "cs")
